@@ -198,7 +198,10 @@ def decoder_rules(chk, cx, rules):
             chk.ob(rules["total"], "Frame::from_bytes has no panicking path besides the discharged unwraps (%s)" % p.info, False, key="dec:panic:%s" % p.info, where=where)
             continue
         v = p.value
-        dec = [(norm(t), val) for (t, val, w) in p.decisions]
+        dec_all = [(norm(t), val) for (t, val, w) in p.decisions]
+        # the loop that decodes the data pairs asks for the next pair; these are not tests on the input's validity
+        # (that it runs to exhaustion is checked where the frame is bound: `dec:loop-exhausted`)
+        dec = [d for d in dec_all if not is_data_iteration(d[0], cap)]
         capd = ("discr", norm(cap))
         if not (v[0] == "adt" and v[3] in ("Ok", "Err")):
             chk.ob(rules["order"], "from_bytes returns Ok/Err", False, key="dec:shape", where=where)
@@ -208,6 +211,16 @@ def decoder_rules(chk, cx, rules):
             kind = e[3] if e[0] == "adt" else "?"
         else:
             kind = "Ok"
+        if kind == "DataTooLong" and too_long_infeasible(dec, cap):
+            continue
+        if False:
+            # infeasible when the path has already passed `pair count == declared length` (a u8): both `len/2` and
+            # `ceil(len/2)` are the pair count because the data group is a whole number of pairs (regex rule, unit 2),
+            # a fact the evaluator's arithmetic does not have
+            eqs = [(t, val) for t, val in dec if t[0] == "app" and t[1] in ("Ne", "Eq") and any(is_count(x, cap) for x in t[2]) and any(is_declared(x, cap) for x in t[2])]
+            gts = [(t, val) for t, val in dec if t[0] == "app" and t[1] == "Gt" and is_count(t[2][0], cap) and t[2][1] == mk_int(255, "usize") and val == 1]
+            if eqs and gts and all(((val == 1) == (t[1] == "Eq")) for t, val in eqs):
+                continue
         kinds.setdefault(kind, []).append(p)
         # generic: first decision is the regex match
         ok_first = bool(dec) and dec[0][0] == capd
@@ -218,7 +231,14 @@ def decoder_rules(chk, cx, rules):
             chk.ob(rules["order"], "InvalidFrame is returned exactly when the regex does not match, before anything else is examined", ok, key="dec:invalid-cond", where=where, detail=str([fmt_term(t)[:60] for t, _ in dec]))
             chk.ob(rules["payload"], "InvalidFrame carries the input bytes", okp, key="dec:invalid-payload", where=where)
             continue
-        # the length test
+        # the length test.  On a path where the decoding loop ran exactly k times before the iterator was exhausted, the
+        # literal k is the pair count (the vector built so far has k elements).
+        its_all = [(t, val) for t, val in dec_all if is_data_iteration(t, cap) and t[1] == "has_next"]
+        n_iter = sum(1 for _, val in its_all if val == 1) if (its_all and its_all[-1][1] == 0) else None
+        if n_iter is not None:
+            lit = mk_int(n_iter, "usize")
+            cnt_marker = ("app", "Div", (("len", norm(group_bytes(cap, "data"))), mk_int(2, "usize")))
+            dec = [((t[0], t[1], tuple(cnt_marker if x == lit else x for x in t[2])), val) if (t[0] == "app" and t[1] in ("Ne", "Eq") and len(t[2]) == 2 and any(is_declared(x, cap) for x in t[2])) else (t, val) for t, val in dec]
         cnt_tests = [(t, val) for t, val in dec if t[0] == "app" and t[1] in ("Ne", "Eq") and any(is_count(x, cap) for x in t[2])]
         if kind == "FrameDataMismatch":
             ok = len(dec) == 2 and len(cnt_tests) == 1 and count_test_ok(cnt_tests[0], cap, equal=False)
@@ -226,7 +246,9 @@ def decoder_rules(chk, cx, rules):
                    detail=str([fmt_term(t)[:90] for t, _ in dec[1:]]))
             e = v[4][0]
             names = field_names(cx.prog, FERR, "FrameDataMismatch")
-            okp = is_declared(e[4][names.index("expected")], cap) and is_count(e[4][names.index("actual")], cap) and norm(e[4][names.index("data")]) == norm(("app", "to_vec", (("sym", "*bytes", "?"),)))
+            act_t = e[4][names.index("actual")]
+            okp = is_declared(e[4][names.index("expected")], cap) and (is_count(act_t, cap) or (n_iter is not None and norm(act_t) == mk_int(n_iter, "usize"))) \
+                and norm(e[4][names.index("data")]) == norm(("app", "to_vec", (("sym", "*bytes", "?"),)))
             chk.ob(rules["payload"], "FrameDataMismatch reports expected = declared length, actual = number of data pairs, data = input", okp, key="dec:mismatch-payload", where=where, detail=fmt_term(e)[:160])
             continue
         if kind in ("BadChecksum", "Ok"):
@@ -242,7 +264,7 @@ def decoder_rules(chk, cx, rules):
             fr = pc[0][6][0]
             okf, whyf = frame_binding(cx, fr, cap)
             chk.ob(rules["bind"], "%s: the frame is built from the parsed address / type / data groups (base 16, data pairs in order)" % kind, okf, key="dec:%s:binding" % kind, where=where, detail=whyf)
-            its = [(t, val) for t, val in dec if is_data_iteration(t, cap) and t[1] == "has_next"]
+            its = [(t, val) for t, val in dec_all if is_data_iteration(t, cap) and t[1] == "has_next"]
             if its:
                 # the data vector is filled by a loop over the pairs: it must run until the iterator is exhausted (no early exit)
                 chk.ob(rules["bind"], "%s: the loop over the data pairs runs to exhaustion" % kind, its[-1][1] == 0 and all(v == 1 for _, v in its[:-1]), key="dec:%s:loop-exhausted" % kind, where=where)
@@ -271,6 +293,15 @@ def decoder_rules(chk, cx, rules):
     return info, paths, cap
 
 
+def too_long_infeasible(dec, cap):
+    """a DataTooLong outcome after the path passed `pair count == declared length` (a u8): infeasible.  Both `len/2` and
+    `ceil(len/2)` are the pair count because the data group is a whole number of pairs (regex rule, unit 2), a fact the
+    evaluator's arithmetic does not have."""
+    eqs = [(t, val) for t, val in dec if t[0] == "app" and t[1] in ("Ne", "Eq") and any(is_count(x, cap) for x in t[2]) and any(is_declared(x, cap) for x in t[2])]
+    gts = [(t, val) for t, val in dec if t[0] == "app" and t[1] == "Gt" and is_count(t[2][0], cap) and t[2][1] == mk_int(255, "usize") and val == 1]
+    return bool(eqs) and bool(gts) and all(((val == 1) == (t[1] == "Eq")) for t, val in eqs)
+
+
 def field_names(prog, adt, variant):
     for v in prog.adts[adt]["variants"]:
         if v["name"] == variant:
@@ -285,8 +316,8 @@ def count_term(cap):
 def is_count(t, cap):
     """len(collect(map(chunks(group data, 2), parse_hex)))"""
     t = norm(t)
-    if t[0] == "app" and t[1] == "Div" and t[2][1] == mk_int(2, "usize") and t[2][0] == ("len", norm(group_bytes(cap, "data"))):
-        return True     # digits / 2: the data group is a whole number of hex pairs (regex rule `group data`, unit 2)
+    if t[0] == "app" and t[1] in ("Div", "div_ceil") and t[2][1] == mk_int(2, "usize") and t[2][0] == ("len", norm(group_bytes(cap, "data"))):
+        return True     # digits / 2 (rounded either way): the data group is a whole number of hex pairs (regex rule `group data`, unit 2)
     if t[0] != "len":
         return False
     c = t[1]
@@ -449,10 +480,15 @@ def run_c03(chk, prog):
     # Regex::new(..).unwrap(): literal compiles
     chk.ob("C03.O2", "Regex::new(<literal>).unwrap() cannot fail: the literal compiles", info.get("compiles"), key="dec:unwrap:regex-new", where=info["init_where"])
     # Data::try_new error unreachable: no DataTooLong outcome among the paths (pruned by len == declared <= 255)
-    too_long = [p for p in paths if p.kind == "return" and p.value[0] == "adt" and p.value[3] == "Err" and p.value[4][0][0] == "adt" and p.value[4][0][3] == "DataTooLong"]
+    too_long = [p for p in paths if p.kind == "return" and p.value[0] == "adt" and p.value[3] == "Err" and p.value[4][0][0] == "adt" and p.value[4][0][3] == "DataTooLong"
+                and not too_long_infeasible([(norm(t), val) for (t, val, w) in p.decisions], cap)]
     chk.ob("C03.O2", "the Data length error is unreachable in the decoder (count == declared length <= 255 on that path)", not too_long, key="dec:too-long-reachable", where=where)
     # panics inside payload / checksum on the decoder's path: analysed by their own rules
     payload_rules(chk, cx, "C03.O2.payload-fn", panics_only=True)
+    # the checksum routine runs on every decoding path (a panic in it breaks totality), and the re-encoding clause is the
+    # encoder's: C01's rules on payload / checksum / to_bytes are part of this property's verdict
+    n = chk.include("C03.O4.encoder", run_c01, cx.prog, keep=lambda r: r[:6] in ("C01.O2", "C01.O3", "C01.O4"))
+    chk.floor("C03.O4.encoder", "encoder / checksum obligations", n, 10)
     chk.assumptions.append("Vec::<u8>::with_capacity(n).capacity() == n for the byte vectors built here (the code's own assert_eq! relies on it; std guarantees >= n)")
     chk.note_analysed("functions", [cx.from_bytes["name"], "flipdot_core::frame::parse_hex", cx.payload["name"], cx.find_checksum()["name"]])
 
@@ -583,8 +619,8 @@ def a_mentions(t, name):
 
 
 def find_var(t, pred):
-    if isinstance(t, tuple):
-        if pred(t):
+    if isinstance(t, tuple) and t:
+        if isinstance(t[0], str) and pred(t):
             return t
         for x in t:
             if isinstance(x, tuple):
@@ -600,6 +636,16 @@ def checksum_rules(chk, cx, rule):
     ev = Evaluator(cx.prog, cx.models)
     paths = ev.run(fn)
     ok1 = len(paths) == 1 and paths[0].kind == "return"
+    loop_form = None
+    if not ok1 and all(p.kind in ("return", "loopback") for p in paths):
+        # an explicit loop instead of Iterator::fold: the path on which the loop ran to exhaustion carries the summary
+        # fold(iterator, init, step); the paths that leave after 0 and 1 iterations must be instances of it (checked below)
+        rets = [p for p in paths if p.kind == "return"]
+        summ = [p for p in rets if find_var(p.value, lambda x: x[0] == "app" and x[1] == "fold") is not None]
+        if len(summ) == 1:
+            loop_form = [p for p in rets if p is not summ[0]]
+            paths = summ
+            ok1 = True
     chk.ob(rule, "the checksum routine is a single non-panicking path", ok1, key="checksum:paths", where=where)
     if not ok1:
         return
@@ -625,9 +671,21 @@ def checksum_rules(chk, cx, rule):
     ci = _CI()
     ci.ev, ci.st = ev, st
     by_value = norm(it)[:2] == ("iter", "copied")
-    step = apply_closure(ci, clo, [acc, b] if by_value else [acc, ("ref", ("val", b, ()), False)])
-    if step is None:
-        step = apply_closure(ci, clo, [acc, ("ref", ("val", b, ()), False)] if by_value else [acc, b])
+    if clo[0] == "template":
+        # the step of an explicit loop: the accumulator's new value in terms of its old one and the iteration's item
+        its = set()
+        from mireval import collect_items
+        collect_items(clo[2], its)
+        item_terms = [t for t in all_subterms(clo[2]) if t[0] == "item"]
+        step = clo[2]
+        for t in item_terms:
+            step = rewrite_term(step, ("proj", t, ("deref",)), b)
+            step = rewrite_term(step, t, b)
+        step = rewrite_term(step, clo[1], acc)
+    else:
+        step = apply_closure(ci, clo, [acc, b] if by_value else [acc, ("ref", ("val", b, ()), False)])
+        if step is None:
+            step = apply_closure(ci, clo, [acc, ("ref", ("val", b, ()), False)] if by_value else [acc, b])
     aff = a3.affine(step, (acc, b)) if step is not None else None
     oks = aff is not None and aff[0] == 0 and aff[1].get(acc, 0) == 1
     chk.ob(rule, "each fold step is acc' = acc + k*b (mod 256)", oks, key="checksum:step", where=where, detail=fmt_term(step)[:80] if step is not None else "closure not evaluable")
@@ -648,6 +706,34 @@ def checksum_rules(chk, cx, rule):
     chk.ob(rule, "checksum(bytes) == -(sum of bytes) mod 256, so all encoded bytes including it sum to 0 (coefficient %d, constant %d)" % (total_coeff, total_const),
            total_coeff == 255 and total_const == 0, key="checksum:lrc", where=where)
     chk.sample({"checksum": fmt_term(v)[:120], "step": fmt_term(step)[:80]})
+    if loop_form is not None:
+        # the early exits of the loop: after no item the result is post(init), after one item post(step(init, item))
+        for p in loop_form:
+            n_it = sum(1 for (t, val, w) in p.decisions if t[0] == "app" and t[1] == "has_next" and val == 1)
+            pv = a3.affine(rewrite_items(p.value, b), (b,))
+            want_c = (kappa * ia[0] + pa[0]) % 256
+            want_b = (kappa * beta) % 256 if n_it == 1 else 0
+            okq = pv is not None and n_it in (0, 1) and pv[0] % 256 == want_c and pv[1].get(b, 0) % 256 == want_b
+            chk.ob(rule, "the loop's exit after %d item(s) returns the same function of the bytes seen" % n_it, okq, key="checksum:loop-exit:%d" % n_it, where=where, detail=fmt_term(p.value)[:80])
+
+
+def all_subterms(t):
+    out = []
+    if isinstance(t, tuple):
+        if t and isinstance(t[0], str):
+            out.append(t)
+        for x in t:
+            if isinstance(x, tuple):
+                out.extend(all_subterms(x))
+    return out
+
+
+def rewrite_items(t, b):
+    """replace (the dereference of) every generic item term by the byte symbol b"""
+    for it in [x for x in all_subterms(t) if x[0] == "item"]:
+        t = rewrite_term(t, ("proj", it, ("deref",)), b)
+        t = rewrite_term(t, it, b)
+    return t
 
 
 def rewrite_term(t, old, new):
